@@ -7,6 +7,7 @@
      [5; ns; m; re_0; im_0; ...]              fexpand(x, ns) of a length-m vector
      [6; ns; sp; sq; bd; b0n; b1n]            expanded taper codes of _freq_filter (si = sp/sq, b = bn/bd)
      [7; ns; is_complex]                      dft: number of output coefficients
+     [8; b0n; b1n; xn]                        fcn_cosine taper code at x (integers over a common denominator)
    output: see `run` (options as 0 / 1 :: payload, lists length-prefixed). *)
 From Coq Require Import ZArith List Bool.
 From IBL.lib Require Import PyInt RunLib.
@@ -39,6 +40,7 @@ Definition run (inp : list Z) : list Z :=
   | [6; ns; sp; sq; bd; b0n; b1n] =>
       enc_option (enc_list enc_triple) (freq_response ns sp sq bd b0n b1n)
   | [7; ns; c] => [dft_nk ns (c =? 1)]
+  | [8; b0n; b1n; xn] => enc_triple (taper_code b0n b1n xn)
   | _ => [-999]
   end.
 
